@@ -1064,3 +1064,370 @@ Qed.
 
 Lemma base_refs_length b w : length (base_refs b w) = w.
 Proof. unfold base_refs. rewrite map_length, seq_length. reflexivity. Qed.
+
+(* ================================================================== FFBuffer domains, independent buffers *)
+Lemma ff_domains_spec bd idom odom :
+  match ff_domains bd idom odom with
+  | Ok (i, o) => (bd = DOut -> idom = None) /\ (bd = DIn -> odom = None) /\
+                 i = (if dir_eqb bd DOut then None else Some (dom_default idom)) /\
+                 o = (if dir_eqb bd DIn then None else Some (dom_default odom))
+  | Err e => e = EValue /\ ((bd = DOut /\ idom <> None) \/ (bd = DIn /\ odom <> None))
+  end.
+Proof.
+  unfold ff_domains. destruct bd, idom as [i|], odom as [o|]; cbn; repeat split; auto; try discriminate;
+    try (left; split; [reflexivity|discriminate]); try (right; split; [reflexivity|discriminate]).
+Qed.
+
+Lemma ff_regs_spec bd pd idom odom d : ffbuffer_init bd pd idom odom = Ok d ->
+  ff_regs d = ((if dir_eqb bd DIn then 0%nat else 1%nat, if dir_eqb bd DIn then None else Some (dom_default odom)),
+               (if dir_eqb bd DOut then 0%nat else 1%nat, if dir_eqb bd DOut then None else Some (dom_default idom))).
+Proof.
+  unfold ffbuffer_init. pose proof (ff_domains_spec bd idom odom) as H.
+  destruct (ff_domains bd idom odom) as [[i o]|]; [|discriminate]. cbn [bind].
+  destruct (buffer_check bd pd); [|discriminate]. cbn [bind]. intros E; inversion E; subst d.
+  destruct H as (_ & _ & -> & ->). unfold ff_regs. destruct bd; reflexivity.
+Qed.
+
+(* two buffers on ports without a common wire do not disturb each other, in either order *)
+Lemma buffers_disjoint p1 p2 bd1 bd2 o1 oe1 o2 oe2 st :
+  bd1 <> DIn -> bd2 <> DIn -> NoDup (p_refs p1) -> NoDup (p_refs p2) ->
+  (forall r, In r (p_refs p1) -> ~ In r (p_refs p2)) ->
+  let st12 := fst (buffer_comb bd2 p2 o2 oe2 (fst (buffer_comb bd1 p1 o1 oe1 st))) in
+  let st21 := fst (buffer_comb bd1 p1 o1 oe1 (fst (buffer_comb bd2 p2 o2 oe2 st))) in
+  (forall k r, nth_error (p_refs p1) k = Some r ->
+     s_o st12 r = xorb (Z.testbit o1 (Z.of_nat k)) (nthb (p_inv p1) k) /\ s_oe st12 r = Z.odd oe1 /\
+     s_o st21 r = s_o st12 r /\ s_oe st21 r = s_oe st12 r) /\
+  (forall k r, nth_error (p_refs p2) k = Some r ->
+     s_o st12 r = xorb (Z.testbit o2 (Z.of_nat k)) (nthb (p_inv p2) k) /\ s_oe st12 r = Z.odd oe2 /\
+     s_o st21 r = s_o st12 r /\ s_oe st21 r = s_oe st12 r).
+Proof.
+  intros H1 H2 N1 N2 Hd st12 st21.
+  destruct (buffer_out_bits p1 bd1 o1 oe1 st H1 N1) as (A1 & B1 & _).
+  destruct (buffer_out_bits p2 bd2 o2 oe2 st H2 N2) as (A2 & B2 & _).
+  destruct (buffer_out_bits p2 bd2 o2 oe2 (fst (buffer_comb bd1 p1 o1 oe1 st)) H2 N2) as (A12 & B12 & _).
+  destruct (buffer_out_bits p1 bd1 o1 oe1 (fst (buffer_comb bd2 p2 o2 oe2 st)) H1 N1) as (A21 & B21 & _).
+  fold st12 in A12, B12. fold st21 in A21, B21. split; intros k r Hk.
+  - assert (Hn : ~ In r (p_refs p2)) by (apply Hd; eapply nth_error_In; eauto).
+    destruct (B12 r Hn) as [E1 E2]. destruct (A1 k r Hk) as [E3 E4]. destruct (A21 k r Hk) as [E5 E6].
+    rewrite E1, E2, E3, E4, E5, E6. auto.
+  - assert (Hn : ~ In r (p_refs p1)).
+    { intros Hin. apply (Hd r Hin). eapply nth_error_In; eauto. }
+    destruct (B21 r Hn) as [E1 E2]. destruct (A2 k r Hk) as [E3 E4]. destruct (A12 k r Hk) as [E5 E6].
+    rewrite E1, E2, E3, E4, E5, E6. auto.
+Qed.
+
+(* ================================================================== the simulator's LHS lowering *)
+Section lval_induction.
+  Variable P : lval -> Prop.
+  Hypothesis Hsig : forall b w, P (LSig b w).
+  Hypothesis Hslice : forall v lo hi, P v -> P (LSlice v lo hi).
+  Hypothesis Hcat : forall ps, Forall P ps -> P (LCat ps).
+  Fixpoint lval_ind2 (v : lval) : P v :=
+    match v with
+    | LSig b w => Hsig b w
+    | LSlice v lo hi => Hslice v lo hi (lval_ind2 v)
+    | LCat ps => Hcat ps ((fix go (ps : list lval) : Forall P ps :=
+                             match ps with
+                             | [] => Forall_nil P
+                             | p :: r => Forall_cons p (lval_ind2 p) (go r)
+                             end) ps)
+    end.
+End lval_induction.
+
+(* all signal bits named anywhere in the tree (sliced away or not) *)
+Fixpoint lv_leaves (v : lval) : list ref :=
+  match v with
+  | LSig b w => base_refs b w
+  | LSlice v _ _ => lv_leaves v
+  | LCat ps => (fix go (ps : list lval) : list ref :=
+                  match ps with [] => [] | p :: r => lv_leaves p ++ go r end) ps
+  end.
+Definition alias_free (v : lval) : Prop := NoDup (lv_leaves v).
+(* every Slice is taken of an operand that names no signal bit twice *)
+Fixpoint slice_safe (v : lval) : Prop :=
+  match v with
+  | LSig _ _ => True
+  | LSlice v _ _ => alias_free v
+  | LCat ps => (fix go (ps : list lval) : Prop :=
+                  match ps with [] => True | p :: r => slice_safe p /\ go r end) ps
+  end.
+
+Lemma lv_wires_cat p r : lv_wires (LCat (p :: r)) = lv_wires p ++ lv_wires (LCat r).
+Proof. reflexivity. Qed.
+Lemma lv_leaves_cat p r : lv_leaves (LCat (p :: r)) = lv_leaves p ++ lv_leaves (LCat r).
+Proof. reflexivity. Qed.
+Lemma slice_safe_cat p r : slice_safe (LCat (p :: r)) = (slice_safe p /\ slice_safe (LCat r)).
+Proof. reflexivity. Qed.
+
+Fixpoint cat_assign (st : bstate) (ps : list lval) (off : Z) (arg : Z) : bstate :=
+  match ps with
+  | [] => st
+  | p :: r => cat_assign (lv_assign st p (Z.land (Z.ones (zlen (lv_wires p))) (Z.shiftr arg off)))
+                         r (off + zlen (lv_wires p)) arg
+  end.
+
+Lemma cat_assign_eq arg ps : forall st off,
+  (fix go (st : bstate) (ps : list lval) (off : Z) {struct ps} : bstate :=
+     match ps with
+     | [] => st
+     | p :: r => go (lv_assign st p (Z.land (Z.ones (zlen (lv_wires p))) (Z.shiftr arg off)))
+                    r (off + zlen (lv_wires p))
+     end) st ps off = cat_assign st ps off arg.
+Proof. induction ps as [|p r IH]; intros st off; [reflexivity|]. cbn [cat_assign]. rewrite <- IH. reflexivity. Qed.
+
+Lemma lv_assign_cat st ps arg : lv_assign st (LCat ps) arg = cat_assign st ps 0 arg.
+Proof. exact (cat_assign_eq arg ps st 0). Qed.
+
+Definition st_eq (a b : bstate) : Prop := forall r, a r = b r.
+
+Lemma upd_steq a b r v : st_eq a b -> st_eq (upd a r v) (upd b r v).
+Proof. intros H x. unfold upd. destruct (ref_eqb r x); auto. Qed.
+
+Lemma assign_cat_steq l : forall a b x, st_eq a b -> st_eq (assign_cat a l x) (assign_cat b l x).
+Proof. induction l as [|r l IH]; intros a b x H; cbn [assign_cat]; auto. apply IH. apply upd_steq. exact H. Qed.
+
+Lemma read_cat_steq l a b : st_eq a b -> read_cat a l = read_cat b l.
+Proof. intros H. induction l as [|r l IH]; cbn [read_cat]; auto. rewrite IH, (H r). reflexivity. Qed.
+
+Lemma assign_cat_app a : forall st b x,
+  assign_cat st (a ++ b) x = assign_cat (assign_cat st a x) b (Z.shiftr x (zlen a)).
+Proof.
+  induction a as [|r a IH]; intros st b x; cbn [app assign_cat].
+  - unfold zlen. cbn [length Z.of_nat]. rewrite Z.shiftr_0_r. reflexivity.
+  - rewrite IH. f_equal. rewrite Z.div2_spec, Z.shiftr_shiftr by (unfold zlen; lia). f_equal.
+    unfold zlen. cbn [length]. lia.
+Qed.
+
+Lemma in_firstn {A} (l : list A) : forall n x, In x (firstn n l) -> In x l.
+Proof.
+  induction l as [|y l IH]; intros n x H; destruct n; cbn [firstn] in H; try contradiction.
+  destruct H as [->|H]; [left; auto|right; eapply IH; eauto].
+Qed.
+
+Lemma in_skipn {A} (l : list A) : forall n x, In x (skipn n l) -> In x l.
+Proof.
+  induction l as [|y l IH]; intros n x H; destruct n; cbn [skipn] in H; auto. right. eapply IH; eauto.
+Qed.
+
+Lemma nodup_firstn {A} (l : list A) : forall n, NoDup l -> NoDup (firstn n l).
+Proof.
+  induction l as [|x l IH]; intros n H; destruct n; cbn [firstn]; try constructor.
+  - inversion H; subst. intros Hin. apply H2. eapply in_firstn; eauto.
+  - inversion H; auto.
+Qed.
+
+Lemma nodup_skipn {A} (l : list A) : forall n, NoDup l -> NoDup (skipn n l).
+Proof.
+  induction l as [|x l IH]; intros n H; destruct n; cbn [skipn]; auto. inversion H; auto.
+Qed.
+
+Lemma lv_wires_sub v :
+  (forall r, In r (lv_wires v) -> In r (lv_leaves v)) /\ (NoDup (lv_leaves v) -> NoDup (lv_wires v)).
+Proof.
+  induction v as [b w|v lo hi IH|ps IH] using lval_ind2.
+  - split; auto.
+  - destruct IH as [I1 I2]. cbn [lv_wires lv_leaves]. split.
+    + intros r H. apply I1. eapply in_skipn. eapply in_firstn. exact H.
+    + intros H. apply nodup_firstn, nodup_skipn. auto.
+  - induction IH as [|p r [P1 P2] _ [R1 R2]].
+    + split; [intros r []|intros _; constructor].
+    + rewrite lv_wires_cat, lv_leaves_cat. split.
+      * intros x H. apply in_app_or in H. apply in_or_app. destruct H; [left; auto|right; auto].
+      * intros H. apply nodup_app_iff in H. destruct H as (Hp & Hr & Hd). apply nodup_app_iff.
+        split; [auto|]. split; [auto|]. intros x Hx Hx'. apply (Hd x); auto.
+Qed.
+
+Lemma alias_free_cat p r : alias_free (LCat (p :: r)) -> alias_free p /\ alias_free (LCat r).
+Proof. unfold alias_free. rewrite lv_leaves_cat. intros H. apply nodup_app_iff in H. tauto. Qed.
+
+Lemma alias_free_safe v : alias_free v -> slice_safe v.
+Proof.
+  induction v as [b w|v lo hi IH|ps IH] using lval_ind2; intros H.
+  - exact I.
+  - exact H.
+  - induction IH as [|p r Hp _ IHr]; [exact I|]. apply alias_free_cat in H. destruct H as [H1 H2].
+    rewrite slice_safe_cat. split; auto.
+Qed.
+
+Lemma nth_error_firstn_lt {A} (l : list A) : forall n j,
+  nth_error (firstn n l) j = if (j <? n)%nat then nth_error l j else None.
+Proof.
+  induction l as [|x l IH]; intros n j.
+  - rewrite firstn_nil. destruct j; destruct (_ <? _)%nat; reflexivity.
+  - destruct n; cbn [firstn].
+    + destruct j; reflexivity.
+    + destruct j; cbn [nth_error]; [reflexivity|]. rewrite IH.
+      change (S j <? S n)%nat with (j <? n)%nat. reflexivity.
+Qed.
+
+Lemma nth_error_skipn_add {A} (l : list A) : forall lo j, nth_error (skipn lo l) j = nth_error l (lo + j).
+Proof.
+  induction l as [|x l IH]; intros lo j.
+  - rewrite skipn_nil. destruct j, lo; reflexivity.
+  - destruct lo; cbn [skipn Nat.add nth_error]; [reflexivity|apply IH].
+Qed.
+
+(* the read-modify-write of a Slice, on an operand without repeated wires, is the assignment to the slice *)
+Lemma rmw_slice st W lo n x r : NoDup W ->
+  assign_cat st W (Z.lor (Z.land (read_cat st W) (Z.lnot (Z.shiftl (Z.ones (Z.of_nat n)) (Z.of_nat lo))))
+                         (Z.shiftl (Z.land (Z.ones (Z.of_nat n)) x) (Z.of_nat lo))) r
+  = assign_cat st (firstn n (skipn lo W)) x r.
+Proof.
+  intros Hnd. set (sub := firstn n (skipn lo W)).
+  assert (Hsub : forall j, nth_error sub j = if (j <? n)%nat then nth_error W (lo + j) else None).
+  { intros j. unfold sub. rewrite nth_error_firstn_lt, nth_error_skipn_add. reflexivity. }
+  assert (Hnds : NoDup sub) by (apply nodup_firstn, nodup_skipn; exact Hnd).
+  destruct (in_dec ref_eq_dec r W) as [Hin|Hnin].
+  - apply In_nth_error in Hin. destruct Hin as [k Hk].
+    assert (Hklt : (k < length W)%nat) by (apply nth_error_Some; congruence).
+    rewrite (assign_cat_nth W _ _ k r Hnd Hk).
+    rewrite Z.lor_spec, Z.land_spec, Z.lnot_spec, !Z.shiftl_spec, Z.land_spec by lia.
+    rewrite read_cat_bit by lia. rewrite Nat2Z.id, Hk.
+    destruct (Nat.ltb_spec k lo) as [Hlo|Hlo].
+    + (* below the slice *)
+      rewrite !(Z.testbit_neg_r _ (Z.of_nat k - Z.of_nat lo)) by lia. cbn [negb andb orb].
+      rewrite andb_true_r, orb_false_r. symmetry. apply assign_cat_other.
+      intros Hin. apply In_nth_error in Hin. destruct Hin as [j Hj]. rewrite Hsub in Hj.
+      destruct (j <? n)%nat; [|discriminate].
+      assert (k = (lo + j)%nat); [|lia].
+      apply (proj1 (NoDup_nth_error W) Hnd); [exact Hklt|congruence].
+    + rewrite Z.testbit_ones_nonneg by lia.
+      destruct (Z.ltb_spec (Z.of_nat k - Z.of_nat lo) (Z.of_nat n)) as [Hhi|Hhi].
+      * (* inside the slice: position k - lo of the sub-list *)
+        cbn [negb andb orb]. rewrite andb_false_r. cbn [orb].
+        assert (Hj : nth_error sub (k - lo) = Some r).
+        { rewrite Hsub. destruct (Nat.ltb_spec (k - lo) n); [|lia]. replace (lo + (k - lo))%nat with k by lia. exact Hk. }
+        rewrite (assign_cat_nth sub _ _ (k - lo) r Hnds Hj). f_equal. lia.
+      * cbn [negb andb orb]. rewrite andb_true_r, orb_false_r. symmetry. apply assign_cat_other.
+        intros Hin. apply In_nth_error in Hin. destruct Hin as [j Hj]. rewrite Hsub in Hj.
+        destruct (Nat.ltb_spec j n); [|discriminate].
+        assert (k = (lo + j)%nat); [|lia].
+        apply (proj1 (NoDup_nth_error W) Hnd); [exact Hklt|congruence].
+  - rewrite !assign_cat_other; auto. intros Hin. apply Hnin. eapply in_skipn. eapply in_firstn. exact Hin.
+Qed.
+
+(* MAIN: the simulator's lowering equals the per-bit assignment whenever no Slice is taken of an operand that
+   names a signal bit twice *)
+Lemma lv_assign_flat v : slice_safe v -> forall st st' x, st_eq st st' ->
+  st_eq (lv_assign st v x) (assign_cat st' (lv_wires v) x).
+Proof.
+  induction v as [b w|v lo hi IH|ps IH] using lval_ind2; intros Hs st st' x He.
+  - cbn [lv_assign lv_wires]. apply assign_cat_steq. exact He.
+  - cbn [slice_safe] in Hs. cbn [lv_assign lv_wires]. intros r.
+    rewrite (IH (alias_free_safe v Hs) st st' _ He r). rewrite (read_cat_steq _ st st' He).
+    apply rmw_slice. apply (proj2 (lv_wires_sub v)). exact Hs.
+  - rewrite lv_assign_cat.
+    assert (G : forall off, 0 <= off -> forall st st', st_eq st st' -> slice_safe (LCat ps) ->
+                st_eq (cat_assign st ps off x) (assign_cat st' (lv_wires (LCat ps)) (Z.shiftr x off))).
+    { clear st st' He Hs. induction IH as [|p r Hp _ IHr]; intros off Hoff st st' He Hs.
+      - cbn [cat_assign lv_wires assign_cat]. exact He.
+      - rewrite slice_safe_cat in Hs. destruct Hs as [Hsp Hsr]. cbn [cat_assign]. rewrite lv_wires_cat, assign_cat_app.
+        rewrite Z.shiftr_shiftr by (unfold zlen; lia). apply IHr; [unfold zlen; lia| |exact Hsr].
+        intros q. rewrite (Hp Hsp st st' _ He q).
+        rewrite (assign_cat_ext (lv_wires p) st' _ (Z.shiftr x off)); [reflexivity|].
+        intros k Hk. rewrite Z.land_spec, Z.ones_spec_low by (unfold zlen; lia). reflexivity. }
+    intros q. rewrite (G 0 ltac:(lia) st st' He Hs q). rewrite Z.shiftr_0_r. reflexivity.
+Qed.
+
+(* the Value tree built by the port algebra names exactly the port's wires *)
+Definition sim_env (env : list port) : Prop :=
+  forall b p, nth_error env b = Some p -> p_refs p = base_refs b (length (p_refs p)).
+
+Lemma firstn1_skipn_gen {A} (l : list A) n :
+  firstn 1 (skipn n l) = match nth_error l n with Some x => [x] | None => [] end.
+Proof.
+  destruct (nth_error l n) as [x|] eqn:E; [apply firstn1_skipn; exact E|].
+  apply nth_error_None in E. rewrite skipn_all2 by exact E. reflexivity.
+Qed.
+
+Lemma lv_bits_wires v idxs : Forall (fun i => 0 <= i) idxs ->
+  lv_wires (LCat (map (lv_bit v) idxs)) = sel (lv_wires v) idxs.
+Proof.
+  induction 1 as [|i t Hi _ IH]; [reflexivity|]. cbn [map]. rewrite lv_wires_cat, IH. unfold sel at 2. cbn [flat_map].
+  fold (sel (lv_wires v) t). f_equal. unfold lv_bit. cbn [lv_wires].
+  replace (S (Z.to_nat i) - Z.to_nat i)%nat with 1%nat by lia. rewrite firstn1_skipn_gen.
+  destruct (i <? 0) eqn:E; [lia|reflexivity].
+Qed.
+
+Lemma peval_lv_wires env : sim_env env -> Forall wf env -> forall e p,
+  peval env e = Ok p -> lv_wires (peval_lv env e) = p_refs p.
+Proof.
+  intros Hsim Hwf. induction e as [b|e IH i|e IH k|a IHa b IHb|e IH]; intros p; cbn [peval peval_lv].
+  - destruct (nth_error env b) as [q|] eqn:E; [|discriminate]. intros H; inversion H; subst q.
+    cbn [lv_wires]. symmetry. apply Hsim. exact E.
+  - destruct (peval env e) as [q|] eqn:Eq; [|discriminate]. cbn [bind]. intros H.
+    specialize (IH q eq_refl). pose proof (peval_wf env Hwf e q Eq) as Hq.
+    pose proof (port_index_spec q i Hq) as Hs. cbn zeta in Hs.
+    destruct ((i <? - plen q) || (plen q <=? i)) eqn:Er; [congruence|].
+    destruct Hs as (r & b & Hr & _ & Hp & _). rewrite Hp in H. inversion H; subst p. cbn [p_refs].
+    unfold lv_index, lv_bit, lv_len. cbn [lv_wires]. rewrite IH. fold (plen q).
+    match goal with |- firstn (S ?j - ?j) _ = _ => replace (S j - j)%nat with 1%nat by lia end.
+    apply firstn1_skipn. exact Hr.
+  - destruct (peval env e) as [q|] eqn:Eq; [|discriminate]. cbn [bind]. intros H.
+    specialize (IH q eq_refl). pose proof (peval_wf env Hwf e q Eq) as Hq.
+    pose proof (port_slice_spec q k Hq) as Hs. unfold lv_slice, lv_len. rewrite IH. fold (plen q).
+    destruct (slice_indices (plen q) k) as [[[a b] s]|] eqn:Ek; [|congruence].
+    destruct ((s =? 1) && (b <? a)) eqn:Er; [congruence|]. cbn zeta in Hs. destruct Hs as (Hp & _ & Hv & _).
+    rewrite Hp in H. inversion H; subst p. cbn [p_refs].
+    assert (H0 : 0 <= plen q) by (unfold plen, zlen; lia).
+    destruct (slice_indices_bounds (plen q) k a b s H0 Ek) as (Hs0 & Hpos & _).
+    destruct (Z.eqb_spec s 1) as [->|Hs1].
+    + cbn [andb] in Er. destruct (Hpos ltac:(lia)) as [Ha Hb]. cbn [lv_wires]. rewrite IH.
+      replace (Z.to_nat b - Z.to_nat a)%nat with (Z.to_nat (b - a)) by lia.
+      apply slice_is_sel; [lia|]. unfold plen in Hb. lia.
+    + rewrite lv_bits_wires, IH; [reflexivity|].
+      eapply Forall_impl; [|exact Hv]. cbn beta. intros; lia.
+  - destruct (peval env a) as [q1|] eqn:E1; [|discriminate]. destruct (peval env b) as [q2|] eqn:E2; [|discriminate].
+    cbn [bind]. intros H. pose proof (port_add_spec q1 q2 (peval_wf env Hwf a q1 E1) (peval_wf env Hwf b q2 E2)) as Hs.
+    destruct (negb (kind_eqb (p_kind q1) (p_kind q2))); [congruence|].
+    destruct (dir_and (p_dir q1) (p_dir q2)); [|congruence]. destruct Hs as [Hp _]. rewrite Hp in H.
+    inversion H; subst p. cbn [p_refs]. rewrite !lv_wires_cat, (IHa q1 eq_refl), (IHb q2 eq_refl).
+    cbn [lv_wires]. rewrite app_nil_r. reflexivity.
+  - destruct (peval env e) as [q|] eqn:Eq; [|discriminate]. cbn [bind]. intros H.
+    destruct (port_invert_spec q (peval_wf env Hwf e q Eq)) as [Hp _]. rewrite Hp in H. inversion H; subst p.
+    cbn [p_refs]. apply IH. reflexivity.
+Qed.
+
+Lemma loopback_steq l a b : st_eq (s_i a) (s_i b) -> st_eq (s_o a) (s_o b) -> st_eq (s_oe a) (s_oe b) ->
+  loopback a l = loopback b l.
+Proof. intros Hi Ho He. induction l as [|r l IH]; cbn [loopback]; auto. rewrite IH, (Hi r), (Ho r), (He r). reflexivity. Qed.
+
+(* hence: the simulated Buffer is the per-bit Buffer of the theorems, unless a Slice is taken of an aliased port *)
+Lemma buffer_comb_lv_flat bd p v o oe st : slice_safe v -> lv_wires v = p_refs p ->
+  st_eq (s_i (fst (buffer_comb_lv bd p v o oe st))) (s_i (fst (buffer_comb bd p o oe st))) /\
+  st_eq (s_o (fst (buffer_comb_lv bd p v o oe st))) (s_o (fst (buffer_comb bd p o oe st))) /\
+  st_eq (s_oe (fst (buffer_comb_lv bd p v o oe st))) (s_oe (fst (buffer_comb bd p o oe st))) /\
+  snd (buffer_comb_lv bd p v o oe st) = snd (buffer_comb bd p o oe st).
+Proof.
+  intros Hs Hw. unfold buffer_comb_lv, buffer_comb. rewrite <- Hw.
+  assert (Hrefl : forall s : bstate, st_eq s s) by (intros s r; reflexivity).
+  pose proof (fun s x => lv_assign_flat v Hs s s x (Hrefl s)) as Hf.
+  destruct bd; cbn [fst snd s_i s_o s_oe]; (split; [apply Hrefl|]); (split; [try apply Hrefl; try apply Hf|]);
+    (split; [try apply Hrefl; try apply Hf|]); try reflexivity.
+  assert (Hl : forall a b, st_eq (s_i a) (s_i b) -> st_eq (s_o a) (s_o b) -> st_eq (s_oe a) (s_oe b) ->
+               loopback a (lv_wires v) = loopback b (lv_wires v)) by (intros; apply loopback_steq; auto).
+  rewrite (Hl _ (PS (s_i st) (assign_cat (s_o st) (lv_wires v)
+                                 (if inv_mask (p_inv p) =? 0 then o else Z.lxor o (inv_mask (p_inv p))))
+                    (assign_cat (s_oe st) (lv_wires v) (replicate_bit (length (lv_wires v)) (Z.odd oe)))));
+    cbn [s_i s_o s_oe]; try reflexivity; try apply Hrefl; apply Hf.
+Qed.
+
+Definition is_sim (x : bdesc) : Prop := match x with BSim _ _ _ => True | _ => False end.
+
+Lemma mk_env_from_sim xs : forall b0 env, Forall is_sim xs -> mk_env_from b0 xs = Ok env ->
+  forall k p, nth_error env k = Some p -> p_refs p = base_refs (b0 + k) (length (p_refs p)).
+Proof.
+  induction xs as [|x r IH]; intros b0 env Hs; cbn [mk_env_from].
+  - intros H; inversion H; subst. intros k p Hk. destruct k; discriminate.
+  - inversion Hs as [|? ? Hx Hr]; subst. destruct (mk_base b0 x) as [q|] eqn:Eq; [|discriminate]. cbn [bind].
+    destruct (mk_env_from (S b0) r) as [ps|] eqn:Er; [|discriminate]. cbn [bind]. intros H; inversion H; subst env.
+    intros k p Hk. destruct k as [|k]; cbn [nth_error] in Hk.
+    + inversion Hk; subst q. destruct x as [d w inv|d w inv|d w inv]; cbn in Hx; try contradiction.
+      cbn [mk_base] in Eq. unfold mk_sim in Eq.
+      destruct (Nat.eqb (length (norm_inv w inv)) w); [|discriminate]. inversion Eq; subst p. cbn [p_refs].
+      rewrite base_refs_length, Nat.add_0_r. reflexivity.
+    + replace (b0 + S k)%nat with (S b0 + k)%nat by lia. apply (IH (S b0) ps Hr Er k p Hk).
+Qed.
+
+Lemma mk_env_sim_env bds env : Forall is_sim bds -> mk_env bds = Ok env -> sim_env env.
+Proof. intros Hs He b p Hb. apply (mk_env_from_sim bds 0%nat env Hs He b p Hb). Qed.
